@@ -5,6 +5,7 @@ CONSTANTS
   MaxInp = 8
   MaxWrite = 3
   EmitOps = TRUE
+  EmitEvery = 1500
 INVARIANT Inv
 PROPERTY Refines
 ACTION_CONSTRAINT Emit
